@@ -22,6 +22,9 @@ var (
 func c20Dial(d *net.Dialer, ctx context.Context, network, addr string) (net.Conn, error) {
 	c20Dialed++
 	c20DialAddr = addr
+	if c03DialConn != nil {
+		return c03DialConn, nil
+	}
 	return nil, errors.New("harness: dial recorded")
 }
 
@@ -31,6 +34,8 @@ func (c20Writer) WriteStreamData(peerID identity.AgentID, streamID uint64, data 
 	return nil
 }
 func (c20Writer) WriteStreamOpenAck(peerID identity.AgentID, streamID uint64, requestID uint64, boundIP net.IP, boundPort uint16, k [crypto.KeySize]byte) error {
+	c03AckPub = k
+	c03Acks++
 	return nil
 }
 func (c20Writer) WriteStreamOpenErr(peerID identity.AgentID, streamID uint64, requestID uint64, errorCode uint16, message string) error {
